@@ -69,3 +69,11 @@ func Cause(err error) error {
 }
 
 var _ = context.Background
+
+// SigBytes returns the signature stream (as written next to a patch) of the build under dir.
+func SigBytes(dir string) []byte {
+	empty := dir + ".empty-target"
+	Must(osMkdirAll(empty), "mkdir")
+	d := Diff(empty, dir)
+	return d.Sig
+}
